@@ -469,6 +469,46 @@ def variant_of_switch(prog, fn, src_bb, val):
                 if v.get("discr", v["index"]) == val:
                     return (adt, v["name"])
             return (adt, val)
+    return _variant_of_eq_switch(prog, fn, src_bb, val)
+
+
+def _variant_of_eq_switch(prog, fn, src_bb, val):
+    """`if x == Enum::V` on a field-less crate enum whose `==` is the derived comparison of discriminants: the true edge
+    selects V, the false edge every other variant."""
+    from .sym import evaluate
+
+    t = fn.blocks[src_bb]["term"]
+    if t.get("ty") != "bool":
+        return None
+    try:
+        ev = evaluate(fn)
+    except Exception:
+        return None
+    d = ev.switch.get(src_bb)
+    if d is None:
+        return None
+    neg = False
+    while d.op in ("ref", "deref") or (d.op == "un" and d.a[0] == "Not"):
+        if d.op == "un":
+            neg = not neg
+            d = d.a[1]
+        else:
+            d = d.a[0]
+    if not (d.op == "call" and isinstance(d.a[0], tuple) and d.a[0][0] in ("PartialEq::eq", "PartialEq::ne") and len(d.a[1]) == 2):
+        return None
+    if d.a[0][0] == "PartialEq::ne":
+        neg = not neg
+    for x, y in ((d.a[1][0], d.a[1][1]), (d.a[1][1], d.a[1][0])):
+        uv = ev._unit_variant(y)
+        if uv is None or ev._unit_variant(x) is not None:
+            continue
+        adt, name = uv
+        if not ev._derived_discr_eq(adt):
+            return None
+        truth = not (val == 0 or val is False)
+        if truth != neg:
+            return (adt, name)
+        return (adt, tuple(v["name"] for v in prog.adts[adt]["variants"] if v["name"] != name))
     return None
 
 
